@@ -19,6 +19,9 @@ def pivot():
         U("Hid", disabled=True, props=[[("name", "hidden"), ("rgb", 1)]]),
         U("Nm", fields=[Field("u16", name="x")], named=True, props=[[("warm", "yes"), ("Name", "cap")]]),
     ], derives=d, note="keys shared across variants and across types; 1..3 groups; disabled variant with props; all kinds"))
+    S.append(EnumSpec("DisAttr", [U("A", props=[[("k", "a")]]), U("H1", disabled=True, message="m", flags_last=True, props=[[("k", "h")]]),
+                                  U("B", props=[[("k", "b"), ("n", 2)]], message="mb"), U("H2", disabled=True, attr_style="trailing", props=[[("n", 9)]])],
+                      derives=d, note="`disabled` after a key = value item in the same attribute / trailing comma, next to props"))
     S.append(EnumSpec("Kw", [
         U("A", props=[[("type", "t"), ("fn", 1), ("match", True)]]),
         U("B", props=[[("r#type", "raw")]] if False else [[("self", "s")], [("type", 2)]]),
